@@ -2,6 +2,7 @@ import LinOp.C03.Getitem
 import LinOp.C03.ProofsOps
 import LinOp.C03.InterpRoot
 import LinOp.C03.Front
+import LinOp.C03.FrontGuard
 /-! Helper lemmas for the `_getitem` (slice) path: block-aligned shortcut, result-operator constructions. -/
 namespace LinOp.C03
 
@@ -251,5 +252,63 @@ theorem expandEllipsis_length (d : Nat) (idx e : List Item) (h : expandEllipsis 
         subst h
         simp only [List.length_append, List.length_replicate]
         omega
+
+/-! ### the index-count guard -/
+
+theorem length_filter_split (idx : List Item) :
+    idx.length = (idx.filter isEll).length + (idx.filter (fun i => !isEll i)).length := by
+  induction idx with
+  | nil => rfl
+  | cons a t ih =>
+    by_cases h : isEll a = true
+    · simp only [List.filter_cons, h, if_true, Bool.not_true, Bool.false_eq_true, if_false, List.length_cons]; omega
+    · have h' : isEll a = false := by simpa using h
+      simp only [List.filter_cons, h', Bool.false_eq_true, if_false, Bool.not_false, if_true, List.length_cons]; omega
+
+theorem tooMany_iff_count (d : Nat) (idx : List Item) (h1 : (idx.filter isEll).length ≤ 1) :
+    tooManyIndices d idx = true ↔ d < (idx.filter (fun i => !isEll i)).length := by
+  have hs := length_filter_split idx
+  unfold tooManyIndices
+  split <;> simp only [decide_eq_true_eq] <;> omega
+
+theorem expandEllipsis_some_not_tooMany (d : Nat) (idx e : List Item) (h : expandEllipsis d idx = some e) :
+    tooManyIndices d idx = false := by
+  unfold expandEllipsis at h
+  simp only at h
+  unfold tooManyIndices
+  split at h
+  · cases h
+  · split at h
+    · rename_i h1
+      split at h
+      · cases h
+      · rename_i h2
+        simp only [h1, if_true, decide_eq_false_iff_not]
+        exact h2
+    · rename_i h1
+      split at h
+      · cases h
+      · rename_i h2
+        simp only [h1, if_false, decide_eq_false_iff_not]
+        exact h2
+
+theorem expandEllipsis_none_tooMany (d : Nat) (idx : List Item) (h1 : (idx.filter isEll).length ≤ 1)
+    (h : expandEllipsis d idx = none) : tooManyIndices d idx = true := by
+  unfold expandEllipsis at h
+  simp only at h
+  unfold tooManyIndices
+  split at h
+  · omega
+  · split at h
+    · rename_i hE
+      split at h
+      · rename_i h2
+        simp only [hE, if_true, decide_eq_true_eq]; exact h2
+      · cases h
+    · rename_i hE
+      split at h
+      · rename_i h2
+        simp only [hE, if_false, decide_eq_true_eq]; exact h2
+      · cases h
 
 end LinOp.C03
